@@ -243,7 +243,7 @@ def flush(run, pending):
     if run.model is None or not pending:
         pending.clear()
         return
-    answers = run.model.ask([p[3] for p in pending])
+    answers = run.model.ask([p[3] for p in pending], chunk=1)      # big requests: one at a time (no pipe deadlock)
     for (case, ok, real, _), m in zip(pending, answers):
         run.traces += 1
         if m == "unmodelled":
